@@ -21,6 +21,7 @@ EXPLANATION = (
     "counter is reset to 0, write_records() is called exactly once and clear() - guarded by clear_records_on_write - "
     "follows it; otherwise nothing is written, reset or cleared. write_records opens filename with filemode, writes every "
     "held record in list order (one write per element) and closes. Not decided: on-disk state at a crash point.")
+EXPLANATION += (" Premises: C01, C05 and C02 (one execute per scheduled timestep, after the timestep's systems). The record may be allocated with its timestep entry and the agents pass may be one dict comprehension merged by update().")
 ASSUMPTIONS = ["OS/file-system behaviour between open and close is not decided (crash-point part of the quantifier)",
                "write_count is a non-negative integer"]
 
